@@ -288,7 +288,76 @@ func H_C03_Cluster() {
 	vCover("c03.cluster")
 }
 
+// H_C04_SlowDelegate_RT: a node built by the real constructor (so the broadcast queue, its NumNodes callback and the
+// listeners are wired the way newMemberlist wires them) is applying a membership claim - the user's Alive delegate
+// runs under the node lock and takes its time - while the protocol carries on: a ping arrives and is answered
+// with piggybacked gossip, a gossip tick runs, the application asks for Members()/NumMembers(), a second claim
+// is handled. None of them may wedge (lock order between the node table and the broadcast queue), and everything
+// finishes once the delegate returns.
+func H_C04_SlowDelegate_RT() {
+	vOpt("sched-det", 1)
+	conf := vBaseConfig()
+	conf.Logger = vLogger()
+	rec := &vTransport{packetCh: make(chan *Packet, 1), streamCh: make(chan net.Conn, 1)}
+	conf.Transport = rec
+	al := &vAliveRec{}
+	conf.Alive = al
+	m, err := newMemberlist(conf)
+	vAssert(err == nil, "c04.slow.created")
+	if err != nil {
+		return
+	}
+	vsn := conf.BuildVsnArray()
+	self := alive{Incarnation: m.nextIncarnation(), Node: vSelf, Addr: []byte{10, 0, 0, 1}, Port: 7946, Vsn: vsn}
+	m.aliveNode(&self, nil, true) // the node's own announcement is now waiting in the broadcast queue
+	known := alive{Incarnation: 1, Node: vPeerB, Addr: []byte{10, 0, 0, 3}, Port: 7946, Vsn: vsn}
+	m.aliveNode(&known, nil, false)
+	release := make(chan struct{})
+	entered := 0
+	al.onNotify = func() { entered++; <-release }
+	d1, d2 := false, false
+	claim := alive{Incarnation: 1, Node: vPeerA, Addr: []byte{10, 0, 0, 2}, Port: 7946, Vsn: vsn}
+	go func() { m.aliveNode(&claim, nil, false); d1 = true }()
+	vYield()
+	vAssert(entered == 1, "c04.slow.delegate-running")
+	other := vPick(5)
+	go func() {
+		switch other {
+		case 0:
+			buf, _ := encode(pingMsg, &ping{SeqNo: 9, Node: vSelf, SourceAddr: []byte{10, 0, 0, 3}, SourcePort: 7946, SourceNode: vPeerB}, false)
+			m.handlePing(buf.Bytes()[1:], vAddr("10.0.0.3:7946"))
+		case 1:
+			m.gossip()
+		case 2:
+			_ = m.NumMembers()
+			_ = len(m.Members())
+		case 3:
+			_ = m.GetHealthScore()
+			_ = m.broadcasts.NumQueued()
+			_ = m.SendBestEffort(&Node{Name: vPeerB, Addr: []byte{10, 0, 0, 3}, Port: 7946, PMax: 5}, []byte{1})
+		case 4:
+			m.suspectNode(&suspect{Incarnation: 1, Node: vPeerB, From: vPeerB})
+		}
+		d2 = true
+	}()
+	vYield()
+	close(release)
+	for i := 0; i < 6 && !(d1 && d2); i++ {
+		vYield()
+	}
+	vAssert(d1, "c04.slow.claim-applied")
+	vAssert(d2, "c04.slow.concurrent-operation-finishes")
+	if other == 0 {
+		vAssert(len(rec.packets) >= 1, "c04.slow.ack-sent")
+	}
+	if d1 && d2 {
+		vAssert(m.Shutdown() == nil, "c04.slow.shutdown")
+	}
+	vCover("c04.slow")
+}
+
 func init() {
+	vRegister("H_C04_SlowDelegate_RT", H_C04_SlowDelegate_RT)
 	vRegister("H_C04_Cluster", H_C04_Cluster)
 	vRegister("H_C03_Cluster", H_C03_Cluster)
 	vRegister("H_DBG_Cluster", H_DBG_Cluster)
